@@ -2,6 +2,7 @@ package nodes
 
 import (
 	"fmt"
+	"sort"
 	"strconv"
 	"strings"
 
@@ -225,6 +226,9 @@ func (sn Struct[T, G]) Dependencies() []NodeDependency {
 			})
 		}
 	}
+
+	// Maps have no order; the remembered dependency versions are positional
+	sort.Slice(output, func(i, j int) bool { return output[i].Name() < output[j].Name() })
 	return output
 }
 
